@@ -5,7 +5,7 @@ V = os.path.dirname(os.path.dirname(os.path.abspath(__file__)))
 CHECKS = {
  "C09": dict(
     technique="Coq proof by kernel computation over the complete regenerated dispatch table (tie T) + differential run on real files",
-    text="Theorem C09_matrix (Props/C09.v): on all 1410 valid configurations the action observed under recording mocks "
+    text="Theorem C09_matrix (Props/C09.v): on all 2490 valid configurations the action observed under recording mocks "
          "equals the specification written from the property; the table is regenerated from /repo on every run, so the "
          "theorem is re-proved against the current code. all_cells_complete shows the enumeration is the whole product. "
          "Real bundled files go through every supported cell and are compared with the direct class-method call.",
